@@ -133,6 +133,19 @@ func (e *Exec) VerifyFunc(fn *ssa.Function, ct *Contract, setup func(st *State, 
 			if mode == "nopanic" || ct.NoEscape {
 				e.AddVC(name+"/safe:panic-escapes", "safe", fn.String(), st, True, "a panic escapes the function")
 			}
+			if len(ct.PanicsOnlyIf) > 0 {
+				penv := e.entryEnv(entry, fn, args, entry)
+				penv.water0 = water0
+				for k, pc := range ct.PanicsOnlyIf {
+					lb := pc.Label
+					if lb == "" {
+						lb = fmt.Sprint(k)
+					}
+					// the condition is over the entry state; the path condition is the panicking path's
+					cond := e.evalBool(pc.Expr, penv)
+					e.AddVC(fmt.Sprintf("%s/post[panics-only-if:%s]", name, lb), "post", fn.String(), st, Not(cond), "the function fails only when: "+pc.Expr)
+				}
+			}
 			if ct.Pure {
 				e.assertPureFrame(name, fn, st, entry, water0)
 			} else if framedAssigns {
